@@ -55,10 +55,10 @@ def rename_scaffolds(inp, pt, mapping):
                 r[1] = mapping[r[1]]
 
 
-def fasta_case(rng, d, tagged=False, two_hap=False, t=None, region_names=False):
+def fasta_case(rng, d, tagged=False, two_hap=False, t=None, region_names=False, tiny_split=False):
     d = Path(d)
     d.mkdir(parents=True, exist_ok=True)
-    t = t or gasm.pick_texel(rng, small=True)
+    t = t or (rng.choice([10.0, 33.333333, 100.0]) if tiny_split else gasm.pick_texel(rng, small=True))
     design = None
     if two_hap:
         res = None
@@ -79,7 +79,30 @@ def fasta_case(rng, d, tagged=False, two_hap=False, t=None, region_names=False):
                 if pc.get("s") in mp:
                     pc["s"] = mp[pc["s"]]
             labels.add("in:region-style-names")
+    if tiny_split and t >= 4:
+        # hostile extra: a one-contig record between one and two texels long, cut in PretextView into two
+        # pieces that are both shorter than a texel; the shorter one is set aside as a haplotig (no longer a
+        # PretextView-model map: the run may refuse it, and the pieces' oracles do not cover it)
+        ln = rng.randint(int(t) + 2, int(2 * t) - 1)
+        lo, hi = max(1, int(ln - t) + 1), int(t) - 1 if t == int(t) else int(t)
+        k = rng.randint(lo, max(lo, hi))
+        k = min(k, ln - k) if rng.random() < 0.7 else k
+        if 1 <= k < t and ln - k < t:
+            nm = f"tiny_{len(inp) + 1}"
+            inp.append([nm, [["F", nm, 1, ln, 1, []]]])
+            a, b = [["F", nm, 1, k, 1, ["Haplotig"]]], [["F", nm, k + 1, ln, 1, []]]
+            if rng.random() < 0.5:
+                a, b = [["F", nm, 1, ln - k, 1, []]], [["F", nm, ln - k + 1, ln, 1, ["Haplotig"]]]
+            pt.append([f"Scaffold_{len(pt) + 1}", a])
+            pt.append([f"Scaffold_{len(pt) + 1}", b])
+            labels.add("hostile:sub-texel-contig-cut-in-two")
     fa = fasta_bytes_for(rng, inp, crlf=rng.random() < 0.1)
+    import zlib
+
+    if zlib.crc32(fa) % 6 == 0:
+        # the last line of the file is not terminated (decided from the content: no draw from the case's stream)
+        fa = fa[: -2 if fa.endswith(b"\r\n") else -1]
+        labels.add("in:fasta-without-final-newline")
     (d / "input.fa").write_bytes(fa)
     (d / "pretext.agp").write_text(gpv.pretext_agp_text(pt, t))
     now = (d / "input.fa").stat().st_mtime
@@ -91,7 +114,7 @@ def fasta_case(rng, d, tagged=False, two_hap=False, t=None, region_names=False):
     }
 
 
-def text_case(rng, d, fmt="tpf", tagged=False, two_hap=False, t=None, mode=None, strands=None, unprefixed=False, primary=None, nhap=None):
+def text_case(rng, d, fmt="tpf", tagged=False, two_hap=False, t=None, mode=None, strands=None, unprefixed=False, primary=None, nhap=None, contig_level_null=False):
     d = Path(d)
     d.mkdir(parents=True, exist_ok=True)
     t = t or gasm.pick_texel(rng)
@@ -110,6 +133,15 @@ def text_case(rng, d, fmt="tpf", tagged=False, two_hap=False, t=None, mode=None,
         inp, pt, design = res
         labels = set(design["labels"])
         pieces = design["pieces"]
+    elif contig_level_null:
+        # a contig-level assembly (every scaffold is one contig: no adjacency anywhere) under a map that leaves
+        # every scaffold whole, unpainted and untagged: nothing to count
+        from vf.core import scaffold_len
+
+        inp, l_in = gasm.gen_input(rng, t, mode=mode or rng.choice(["tpf", "fasta"]), strands=strands, max_contigs=1)
+        pt = [[f"Scaffold_{k + 1}", [["F", s_[0], 1, scaffold_len(s_), 1, []]]] for k, s_ in enumerate(inp)]
+        pieces = None
+        labels = l_in | {"null:contig-level-input"}
     else:
         inp, l_in = gasm.gen_input(rng, t, mode=mode or rng.choice(["tpf", "shared", "fasta"]), strands=strands)
         pt, design, pieces, labels = make_maps(rng, t, inp, tagged)
